@@ -13,6 +13,13 @@ cp specs/*.tla "$T/"
 fail=0
 for f in "$T"/*.tla; do
   case "$f" in *.tmpl.tla) continue;; esac
+  if grep -q '^EXTENDS.*Apalache' "$f"; then
+    # Apalache-only module (uses Apalache.tla, which is not on TLC's path): type-check it with Apalache instead
+    if ! (cd "$T" && apalache-mc typecheck "$(basename "$f")" >"$T/apa.out" 2>&1); then
+      echo "apalache typecheck failed on $f"; tail -5 "$T/apa.out"; fail=1
+    fi
+    continue
+  fi
   if ! (cd "$T" && java -cp /opt/veriftools/tla/tla2tools.jar:/opt/veriftools/tla/CommunityModules-deps.jar tla2sany.SANY "$(basename "$f")" >"$T/sany.out" 2>&1); then
     echo "SANY failed on $f"; tail -5 "$T/sany.out"; fail=1
   fi
